@@ -78,21 +78,22 @@ fn release_race(case: &Case, out: &RunOut) -> bool {
 /// Invariants on a recovered (reopened) state.
 fn check_recovered(case: &Case, pre: &SeqState, out: &RunOut, ctx: &mut CaseCtx, what: &str) -> Result<(), String> {
     let snap = out.crash_snap.as_ref().unwrap();
-    let rec = match reopen_snapshot(snap) {
-        Ok(r) => r,
-        Err(e) => {
-            // reopen_snapshot runs the C02 observation: a unique-index mismatch after the release race is the listed finding
-            if release_race(case, out) && (e.contains("returns") || e.contains("share")) {
-                return ctx.fail_sig(SIG_RELEASE, format!("{what}: {e}"));
-            }
-            return Err(format!("{what}: {e}"));
-        }
-    };
+    let (rec, index_err) = reopen_snapshot_parts(snap).map_err(|e| format!("{what}: {e}"))?;
     if let Err(e) = unique_ok(&rec.docs) {
+        // two recovered documents share a unique value. After the release race this is the listed
+        // finding, whatever the indexes then say about them (recovery cannot index both: the
+        // second one's re-insert is refused, so it is left out of every index)
         if release_race(case, out) {
-            return ctx.fail_sig(SIG_RELEASE, format!("{what}: after recovery {e}"));
+            return ctx.fail_sig(SIG_RELEASE, format!("{what}: after recovery {e}{}", index_err.map(|x| format!("; {x}")).unwrap_or_default()));
         }
         return Err(format!("{what}: after recovery {e}"));
+    }
+    if let Some(e) = index_err {
+        // reopen_snapshot runs the C02 observation: a unique-index mismatch after the release race is the listed finding
+        if release_race(case, out) && (e.contains("returns") || e.contains("share")) {
+            return ctx.fail_sig(SIG_RELEASE, format!("{what}: {e}"));
+        }
+        return Err(format!("{what}: {e}"));
     }
     // acknowledged effects on documents nobody else touched are in effect
     let n = case.ops.len();
